@@ -10,7 +10,7 @@ namespace Gleece.Driver
 open Gleece.Cli
 
 def cmdOfKind : String → Cmd
-  | "spec" => .spec | "routes" => .routes | "bare" => .bare | _ => .specAndRoutes
+  | "spec" => .spec | "routes" => .routes | "bare" => .bare | "dump-graph" => .dump | _ => .specAndRoutes
 
 def cliHandler : Handler := fun prop input impl => do
   if prop ≠ "C14" then throw s!"mode cli: no check for property {prop}"
